@@ -13,6 +13,7 @@ use crate::runner::*;
 use crate::tape::Tape;
 use crate::Ctx;
 use ironplc_dsl::common::*;
+use ironplc_dsl::textual::*;
 use ironplc_dsl::core::FileId;
 use ironplc_parser::options::ParseOptions;
 use ironplc_parser::parse_program;
@@ -54,6 +55,10 @@ pub enum Embed {
     Init,
     Address,
     TaskInterval,
+    /// an integer written in another position that converts a number: 0 subrange lower bound,
+    /// 1 subrange upper bound, 2 array lower bound, 3 CASE selector, 4 expression operand,
+    /// 5 task priority, 6 string length, 7 repetition count of an array initial value
+    IntAt(u8),
 }
 
 fn underscores(digits: &str, t: &mut Tape) -> String {
@@ -683,7 +688,34 @@ fn gen_bool(t: &mut Tape, g: &Gates) -> Lit {
     Lit { text, expect: Expect::Bool(v), family: "boolean", class: class.into(), embed: Embed::Init }
 }
 
+/// a decimal integer (optional sign where the grammar has a signed integer) in one of the
+/// positions that convert a number outside a variable's initial value
+fn gen_integer_position(t: &mut Tape) -> Lit {
+    let pos = t.below(8) as u8;
+    let (mag, class, over) = magnitude_class(t);
+    let signed_pos = pos <= 3;
+    let neg = signed_pos && t.ratio(1, 3);
+    let plus = signed_pos && !neg && t.ratio(1, 8);
+    let digits = if over { format!("{}{}", u128::MAX, t.below(10)) } else { mag.to_string() };
+    let digits = if t.ratio(1, 4) { underscores(&digits, t) } else { digits };
+    let text = format!("{}{}", if neg { "-" } else if plus { "+" } else { "" }, digits);
+    // capacity of the field that holds the value
+    let cap: u128 = if pos == 5 { u32::MAX as u128 } else { u128::MAX };
+    let expect = if over || mag > cap {
+        Expect::Reject("the value does not fit the field".into())
+    } else if pos == 4 && neg {
+        // in an expression the sign is an operator: judged by C01
+        Expect::Int { mag, neg: false, ty: None }
+    } else {
+        Expect::Int { mag, neg: neg && mag != 0 || (neg && mag == 0), ty: None }
+    };
+    Lit { text, expect, family: "integer-position", class: format!("pos{}.{}{}", pos, class, if neg { ".neg" } else if plus { ".plus" } else { "" }), embed: Embed::IntAt(pos) }
+}
+
 pub fn gen_literal(t: &mut Tape, g: &Gates) -> Lit {
+    if t.ratio(1, 8) {
+        return gen_integer_position(t);
+    }
     match t.below(12) {
         0 | 1 => gen_integer(t),
         2 => gen_bits(t),
@@ -707,6 +739,14 @@ pub fn embed(l: &Lit) -> String {
     match l.embed {
         Embed::Init => format!("PROGRAM p\nVAR\nx : INT := {};\nEND_VAR\nEND_PROGRAM\n", l.text),
         Embed::Address => format!("PROGRAM p\nVAR\nx AT {} : BOOL;\nEND_VAR\nEND_PROGRAM\n", l.text),
+        Embed::IntAt(0) => format!("TYPE\nr : LINT({}..340282366920938463463374607431768211455);\nEND_TYPE\n", l.text),
+        Embed::IntAt(1) => format!("TYPE\nr : LINT(-340282366920938463463374607431768211455..{});\nEND_TYPE\n", l.text),
+        Embed::IntAt(2) => format!("TYPE\na : ARRAY[{}..340282366920938463463374607431768211455] OF INT;\nEND_TYPE\n", l.text),
+        Embed::IntAt(3) => format!("PROGRAM p\nVAR\nx : INT;\nEND_VAR\nCASE x OF\n{}: x := 1;\nEND_CASE;\nEND_PROGRAM\n", l.text),
+        Embed::IntAt(4) => format!("PROGRAM p\nVAR\nx : INT;\nEND_VAR\nx := {};\nEND_PROGRAM\n", l.text.trim_start_matches('-')),
+        Embed::IntAt(5) => format!("CONFIGURATION c\nRESOURCE r ON cpu\nTASK t(INTERVAL := T#1s, PRIORITY := {});\nPROGRAM p WITH t : q;\nEND_RESOURCE\nEND_CONFIGURATION\n", l.text),
+        Embed::IntAt(6) => format!("TYPE\ns : STRING[{}];\nEND_TYPE\n", l.text),
+        Embed::IntAt(_) => format!("TYPE\na : ARRAY[1..2] OF INT := [{}(0)];\nEND_TYPE\n", l.text),
         Embed::TaskInterval => format!("CONFIGURATION c\nRESOURCE r ON cpu\nTASK t(INTERVAL := {}, PRIORITY := 1);\nPROGRAM p WITH t : q;\nEND_RESOURCE\nEND_CONFIGURATION\n", l.text),
     }
 }
@@ -718,7 +758,48 @@ fn elem_name(e: &ElementaryTypeName) -> String {
 
 /// Observed value of the literal node in the parsed library, normalised to `Expect`.
 pub fn observe(lib: &Library, e: Embed) -> Result<Expect, String> {
+    let si = |v: &SignedInteger| Expect::Int { mag: v.value.value, neg: v.is_neg, ty: None };
     match e {
+        Embed::IntAt(pos) => {
+            let first = lib.elements.first().ok_or("empty library")?;
+            match (pos, first) {
+                (0, LibraryElementKind::DataTypeDeclaration(DataTypeDeclarationKind::Subrange(d))) | (1, LibraryElementKind::DataTypeDeclaration(DataTypeDeclarationKind::Subrange(d))) => match &d.spec {
+                    SubrangeSpecificationKind::Specification(sp) => Ok(si(if pos == 0 { &sp.subrange.start } else { &sp.subrange.end })),
+                    _ => Err("subrange without bounds".into()),
+                },
+                (2, LibraryElementKind::DataTypeDeclaration(DataTypeDeclarationKind::Array(d))) => match &d.spec {
+                    ArraySpecificationKind::Subranges(sr) => Ok(si(&sr.ranges.first().ok_or("no range")?.start)),
+                    _ => Err("array without ranges".into()),
+                },
+                (3, LibraryElementKind::ProgramDeclaration(p)) => match &p.body {
+                    FunctionBlockBodyKind::Statements(st) => match st.body.first() {
+                        Some(StmtKind::Case(c)) => match c.statement_groups.first().and_then(|g| g.selectors.first()) {
+                            Some(CaseSelectionKind::SignedInteger(v)) => Ok(si(v)),
+                            other => Err(format!("unexpected selector {:?}", other)),
+                        },
+                        other => Err(format!("unexpected statement {:?}", other)),
+                    },
+                    _ => Err("no statements".into()),
+                },
+                (4, LibraryElementKind::ProgramDeclaration(p)) => match &p.body {
+                    FunctionBlockBodyKind::Statements(st) => match st.body.first() {
+                        Some(StmtKind::Assignment(a)) => match &a.value {
+                            ExprKind::Const(ConstantKind::IntegerLiteral(i)) => Ok(Expect::Int { mag: i.value.value.value, neg: i.value.is_neg, ty: None }),
+                            other => Err(format!("unexpected expression {:?}", other)),
+                        },
+                        other => Err(format!("unexpected statement {:?}", other)),
+                    },
+                    _ => Err("no statements".into()),
+                },
+                (5, LibraryElementKind::ConfigurationDeclaration(c)) => c.resource_decl.first().and_then(|r| r.tasks.first()).map(|t| Expect::Int { mag: t.priority as u128, neg: false, ty: None }).ok_or_else(|| "no task".to_string()),
+                (6, LibraryElementKind::DataTypeDeclaration(DataTypeDeclarationKind::String(d))) => Ok(Expect::Int { mag: d.length.value, neg: false, ty: None }),
+                (7, LibraryElementKind::DataTypeDeclaration(DataTypeDeclarationKind::Array(d))) => match d.init.first() {
+                    Some(ArrayInitialElementKind::Repeated(r)) => Ok(Expect::Int { mag: r.size.value, neg: false, ty: None }),
+                    other => Err(format!("unexpected initial element {:?}", other)),
+                },
+                (p, other) => Err(format!("position {}: unexpected declaration {:?}", p, std::mem::discriminant(other))),
+            }
+        }
         Embed::TaskInterval => {
             if let Some(LibraryElementKind::ConfigurationDeclaration(c)) = lib.elements.first() {
                 if let Some(iv) = c.resource_decl.first().and_then(|r| r.tasks.first()).and_then(|t| t.interval.clone()) {
